@@ -170,3 +170,14 @@ def add_contracts():
         'mj_sleepCycle': {'assumed': True, 'requires': {}, 'assigns': [], 'pure': True, 'ensures': {'a_tree_of_the_cycle': '0 <= result and result < ntree'}},      # called for a sleeping tree; its cycle is intact (C18)
     })
     return C
+
+
+# bodycategory: a body is static exactly when it is welded to the world
+BODYCAT = {
+    'params': {'m': {'n': 1, 'ptrfields': {'body_weldid': {'len': 'm.nbody'}, 'body_dofnum': {'len': 'm.nbody'}}}},
+    'requires': {'body': '0 <= bodyid and bodyid < m.nbody and m.nbody < 2**30',
+                 'weld_ids': 'forall(lambda b: implies(0 <= b and b < m.nbody, 0 <= m.body_weldid[b] and m.body_weldid[b] < m.nbody))'},
+    'assigns': [],
+    'ensures': {'static_iff_welded_to_the_world': 'result == (mjCAT_STATIC if m.body_weldid[bodyid] == 0 else mjCAT_DYNAMIC)'},
+    'no_error': True,
+}
